@@ -30,6 +30,7 @@ type Config struct {
 	Trace         bool
 	NoMerge       bool
 	InjectiveHash bool
+	BudgetIsViolation bool
 	InitPkgs      []string // package paths whose init is run (leniently) before each path
 	StopAtFirst   bool     // stop exploring a harness after its first violation of each label
 	Verbose       bool
@@ -856,6 +857,22 @@ func (e *Engine) runPath(fn *ssa.Function, name string, it workItem, solvers *So
 			res.Msg = r.why
 			if r.kind == "stop" {
 				res.Outcome = "violation-stop"
+			}
+			if r.kind == "budget" && ex.eng.Cfg.BudgetIsViolation {
+				// the path did not terminate within the step/depth budget: a candidate
+				// "loops forever" violation, confirmed natively under a timeout
+				m := ex.modelIfValid()
+				if m == nil {
+					func() {
+						defer func() { recover() }()
+						if rr, mm := ex.query(nil, true); rr == Sat {
+							m = mm
+						}
+					}()
+				}
+				if m != nil {
+					ex.violation("hang", "does-not-terminate", "step budget exceeded: "+r.why, m)
+				}
 			}
 		case unsupported:
 			res.Outcome = "unsupported"
